@@ -311,7 +311,11 @@ func (f *Frame) enterLoop(li *loopInfo, b *ssa.BasicBlock) {
 
 func (f *Frame) evalStubLoop(con *Contract, vals [][]*Term, mem MemState) *stubEval {
 	m := mem
-	return f.evalStub(con, vals, f.u.M0, &m, f.tb().BVU(32, freshBase), nil)
+	old := f.u.M0
+	if f.entryMem != nil {
+		old = *f.entryMem
+	}
+	return f.evalStub(con, vals, old, &m, f.tb().BVU(32, freshBase), nil)
 }
 
 // backEdge: the invariant must hold again with the values flowing along from->header.
